@@ -103,6 +103,9 @@ def gen_case(rng, tier, index):
         vv = gen.gen_values(rng, Tv, n + extra, sub)       # value longer than the record array stays aligned
         case["value"] = gen.encode(rng, Tv, vv, "random", sub)
         case["name"] = rng.choice((keys or []) + ["new1", "new2"]) if T["keys"] is not None else rng.choice(["0", "1", "9"])
+        if T["keys"] is not None and rng.random() < 0.4 and str(len(T["fields"]) + 3) not in (keys or []):
+            # the integer-slot overload: the new field is inserted at that slot under the name str(slot)
+            case["slot"] = rng.randint(0, len(T["fields"]) + 1)
     return case
 
 
@@ -208,6 +211,8 @@ def run_case(ctx, case):
 
     # setitem_field
     name = case["name"]
+    if case.get("slot") is not None:
+        return run_setitem_slot(ctx, b, h, d, T, v, case)
     try:
         vh = b.build(case["value"])
         r = b.setitem_field(h, name, vh)
@@ -239,6 +244,43 @@ def run_case(ctx, case):
     if model.param(d, "__record__") != model.param(rd, "__record__"):
         ctx.violation("setitem-record-name", {"before": model.param(d, "__record__"), "after": model.param(rd, "__record__")})
     ctx.count("setitem_checked")
+
+
+def run_setitem_slot(ctx, b, h, d, T, v, case):
+    slot = case["slot"]
+    keys = list(T["keys"])
+    name = str(slot)
+    if name in keys:
+        ctx.count("setitem_slot_skipped_name_exists")
+        return
+    try:
+        r = b.setitem_field_at(h, slot, b.build(case["value"]))
+    except AkError as e:
+        ctx.cover("setitem_slot_outcome", "error:" + e.kind)
+        ctx.violation("unexpected-error", {"op": {"op": "setitem_field(slot)"}, "slot": slot, "got": str(e)[:300]})
+        return
+    ctx.cover("setitem_slot_outcome", "value")
+    ctx.cover("setitem_slot_position", "front" if slot == 0 else ("append" if slot >= len(keys) else "middle"))
+    rv = model.value(b.describe(r))
+    newval = model.value(case["value"])[:len(v)]
+    want_keys = keys[:slot] + [name] + keys[slot:]
+    if len(rv) != len(v):
+        ctx.violation("setitem-length", {"before": len(v), "after": len(rv)})
+        return
+    for i, (old, new) in enumerate(zip(v, rv)):
+        if not isinstance(new, dict) or list(new) != want_keys:
+            ctx.violation("setitem-field-order", {"slot": slot, "before": keys, "after": list(new) if isinstance(new, dict) else str(new)[:80],
+                                                  "expected": want_keys})
+            return
+        if not model.same(new[name], newval[i]):
+            ctx.violation("setitem-readback", {"name": name, "slot": slot, "at": i, "expected": model.brief(newval[i]),
+                                               "got": model.brief(new)})
+            return
+        for k in keys:
+            if not model.same(old[k], new[k]):
+                ctx.violation("setitem-other-field-changed", {"name": name, "slot": slot, "field": k, "at": i})
+                return
+    ctx.count("setitem_slot_checked")
 
 
 def classify(vio):
